@@ -111,16 +111,15 @@ class PythonType(GenericType):
     def is_specialization_of(self, other):
         if not isinstance(other, PythonType):
             return False
-        try:
-            len(self.python_type)
-            len(other.python_type)
-        except Exception:
-            return (
-                issubclass(self.python_type, other.python_type)
-                and not issubclass(other.python_type, self.python_type)
-            )
-        else:
+        # a tuple of classes (e.g. Number) is comparable with nothing;
+        # issubclass() raises TypeError when its first argument is a tuple
+        if isinstance(self.python_type, tuple) or isinstance(
+                other.python_type, tuple):
             return False
+        return (
+            issubclass(self.python_type, other.python_type)
+            and not issubclass(other.python_type, self.python_type)
+        )
 
 
 class MappingRule(LazyParameterType, SmartType):
